@@ -46,8 +46,11 @@ for d in sorted(glob.glob(root + "/*/")):
         "kept": bool(valid) and not superseded,
         "superseded_by_fix": open(os.path.join(d, "SUPERSEDED.txt")).read() if superseded else None,
         "what_was_run": "tools/tryseed.sh: in the sub-agent's scratch worktree of /repo: demo on clean HEAD, git apply patch.diff, "
-                        "go build ./..., demo with patch, go test -json ./pkg/... ./cni/... compared with BASELINE.json stable_pass; "
-                        "then ./check <prop> (quick tier, default seed) built against the patched worktree (VERIF_REPO), then git apply -R",
+                        "go build ./pkg/... ./cni/... ./cmd/..., demo with patch, go test -json ./pkg/... ./cni/... compared with "
+                        "BASELINE.json stable_pass; then ./check <prop> (quick tier, default seed) built against the patched worktree "
+                        "(VERIF_REPO), then the patch reverted. Finally tools/finalseeds.sh: git -C /repo apply patch.diff, the checks of "
+                        "seeded/CHECKS.txt (quick, default seed, evidence redirected), git -C /repo checkout -- . ('final' lines of verify.log; "
+                        "checks_run holds the last result per check)",
         "checks_run": list(last.values()),
         "detected_by": detected,
     }
@@ -59,7 +62,8 @@ with open(root + "/RESULTS.md", "w") as f:
     f.write("# Seeded changes: which checks catch which\n\n")
     f.write("Each change was produced by a fresh sub-agent that saw only the property text and a scratch worktree; it compiles, "
             "passes the baseline suite, and its demonstration fails with the change and passes without (verified by tools/tryseed.sh). "
-            "Checks were run in the quick tier at the default seed against the patched worktree.\n\n")
+            "Checks were run in the quick tier at the default seed; the results below are those of the final pass "
+            "(tools/finalseeds.sh: patch applied to /repo itself, checks run, patch reverted).\n\n")
     f.write("| seeded change | property | confirmed | detected by (exit 1) | run but silent | signatures |\n|---|---|---|---|---|---|\n")
     for name, prop, valid, detected, last in rows:
         silent = [c for c, v in last.items() if v["exit"] == 0]
